@@ -354,8 +354,8 @@ func whyNotOwn(sent, got []byte) string {
 		}
 		return "a panicked request may only be answered with an empty SERVFAIL"
 	}
-	if r.Rcode == dns.RcodeServerFailure && len(r.Answer) == 0 {
-		return "" // shed / timed out: its own failure reply
+	if (r.Rcode == dns.RcodeServerFailure || r.Rcode == dns.RcodeBadCookie || r.Rcode == dns.RcodeRefused) && len(r.Answer) == 0 {
+		return "" // shed / timed out / told to retry with a cookie: its own failure reply (id, question, cookie already judged)
 	}
 	if n, ok := bigCount(name); ok {
 		if r.Truncated && len(r.Answer) == 0 {
@@ -725,7 +725,74 @@ func execSpell(mode string, seed uint64, kinds []string) vlib.Res {
 
 var spellSeq int
 
+// execRL: clientratelimit on, every query from ONE non-loopback source address
+// (clients behind a NAT: other ports, other client cookies). c = OPT with this
+// client's own cookie, n = OPT without, p = no OPT, s = a short cookie. Whatever
+// the limiter answers (the reply, or BADCOOKIE), a reply's COOKIE must begin with
+// the client cookie of ITS query.
+func execRL(mode, pattern string) vlib.Res {
+	l := srvh.Start(srvh.Opts{Handlers: []string{"recovery", "ratelimit", "edns", "cache"}, Tweak: func(cfg *config.Config) {
+		cfg.ClientRateLimit = 100000
+	}})
+	defer l.Stop()
+	l.Stub.Set(stubRespond)
+	rlSeq++
+	or := "ok"
+	seen := make([]string, 0, len(pattern))
+	for i, c := range pattern {
+		m := new(dns.Msg)
+		m.SetQuestion(fmt.Sprintf("rl%d-s%d-ok.z.c10.", rlSeq, i+1), dns.TypeTXT)
+		m.Id = uint16(i%3)<<10 | uint16(i+1)
+		if c != 'p' {
+			m.SetEdns0(1232, false)
+			o := m.IsEdns0()
+			switch c {
+			case 'c':
+				o.Option = append(o.Option, &dns.EDNS0_COOKIE{Code: dns.EDNS0COOKIE, Cookie: fmt.Sprintf("%016x", 0xc00c1e0000000000+uint64(i+1))})
+			case 's':
+				o.Option = append(o.Option, &dns.EDNS0_COOKIE{Code: dns.EDNS0COOKIE, Cookie: "5a5b5c5d5e5f50"[:2*(1+i%7)]})
+			}
+		}
+		raw, _ := m.Pack()
+		remote := &net.UDPAddr{IP: net.IPv4(203, 0, 113, 7), Port: 4000 + i%3}
+		var replies [][]byte
+		if mode == "msg" {
+			w := l.Msg(m.Copy(), remote, "udp")
+			for _, x := range w.Msgs {
+				b, _ := x.Pack()
+				replies = append(replies, b)
+			}
+		} else {
+			replies, _, _ = l.Raw(raw, remote)
+		}
+		tok := "none"
+		if len(replies) > 1 && or == "ok" {
+			or = fail("usrv/rl/reply-count", "query %d got %d replies", i+1, len(replies))
+		}
+		if len(replies) >= 1 {
+			tok = "?"
+			r := new(dns.Msg)
+			if r.Unpack(replies[0]) == nil {
+				tok = "-"
+				if ck := cookieOf(r); len(ck) >= 16 {
+					tok = ck[:16]
+				}
+			}
+			if why := whyNotOwn(raw, replies[0]); why != "" && or == "ok" {
+				or = fail("usrv/rl/"+mode+"/not-own-bytes", "reply %d (client port %d): %s", i+1, remote.Port, why)
+			}
+		}
+		seen = append(seen, tok)
+	}
+	return vlib.Res{Impl: strings.Join(seen, ","), Oracle: or, Tags: "nt,ratelimit"}
+}
+
+var rlSeq int
+
 func execUSrv(f []string) vlib.Res {
+	if f[1] == "rl" {
+		return execRL(f[2], f[3])
+	}
 	if f[1] == "cookie" {
 		return execCookie(f[2], f[3])
 	}
